@@ -25,6 +25,23 @@ def variants(df, rng):
     v = df[['type', 'height', 'ceilo', 'dt']].copy(); out.append(('reordered columns', v))
     v = df.copy(); v['ceilo'] = v['ceilo'].astype(object); v['type'] = v['type'].astype(float); out.append(('object ceilo, float type', v))
     v = df.copy(); v['type'] = v['type'].astype('int8'); out.append(('narrow int type', v))
+    # the axes combined: other coercible dtypes AND a relabelled index (a conversion that builds new objects must not re-align rows)
+    def retyped(d):
+        d = d.copy()
+        d['type'] = d['type'].astype(rng.choice(['float', 'int8', 'int32']))
+        d['ceilo'] = d['ceilo'].astype(object)
+        if (d['dt'] == d['dt'].round()).all():
+            d['dt'] = d['dt'].astype(int)
+        hh = d['height']
+        if hh.notna().all() and (hh == hh.round()).all():
+            d['height'] = hh.astype(int)
+        else:
+            d['height'] = hh.astype('float32').astype(float) if False else hh
+        return d
+    v = retyped(df); v.index = rng.sample(range(n), n); out.append(('other dtypes + shuffled labels', v))
+    v = retyped(df); v.index = [i + 1000 for i in range(n)]; out.append(('other dtypes + offset labels', v))
+    v = retyped(df); v.index = [f'r{i}' for i in range(n)]; out.append(('other dtypes + string labels', v))
+    v = retyped(df); v.index = [i // 2 for i in range(n)]; out.append(('other dtypes + repeated labels', v))
     return out
 
 
